@@ -599,6 +599,14 @@ def run(ctx: Any, prog: Program) -> None:
                             ex_guards.setdefault(a_, set()).update(base6 | guards_of(x, f6, me6))
         # copy side: stores into the new object after it was built
         news6 = {t.id for a in walk_no_nested(cp6) if isinstance(a, ast.Assign) and isinstance(a.value, ast.Call) for t in a.targets if isinstance(t, ast.Name)}
+        # presence tests of fields that are carried in the same way (`if self.is_disp and self.disp_pos is not None: <copy disp_pos, disp_flags>`)
+        # say nothing new: a field that is itself carried under a test of its own presence may appear in the guard of its companions
+        self_guarded: Set[str] = set()
+        for a in walk_no_nested(cp6):
+            if isinstance(a, ast.Assign):
+                for t in a.targets:
+                    if isinstance(t, ast.Attribute) and isinstance(t.value, ast.Name) and t.value.id in news6 and t.attr in guards_of(a, cp6, me_c):
+                        self_guarded.add(t.attr)
         for a in walk_no_nested(cp6):
             if not isinstance(a, ast.Assign):
                 continue
@@ -608,7 +616,7 @@ def run(ctx: Any, prog: Program) -> None:
                     if F not in ex_guards:
                         continue
                     cg = guards_of(a, cp6, me_c)
-                    extra = sorted(cg - {F} - ex_guards[F])
+                    extra = sorted(cg - {F} - ex_guards[F] - self_guarded)
                     ctx.check('C09.P6', not extra, vm, a, f'{cls6}.copy carries `{F}` only when tests on {sorted(cg)} allow it, while {cls6}.export writes it depending on {sorted(ex_guards[F] | {F})} alone: an object for which '
                               f'the test on {extra} fails keeps `{F}` when written but loses it when copied', func=f'{cls6}.copy', text=f'{cls6}.copy: `{F}` carried under the conditions export() writes it')
 
